@@ -446,10 +446,14 @@ class Lexer:
         else:
             escapes = ""
         text = text.replace("\r\n", "\n")
+        # the filter list begins after the lines of the expression, and
+        # of the whitespace stripped from in front of it
+        stripped = escapes[: len(escapes) - len(escapes.lstrip())]
         self.append_node(
             parsetree.Expression,
             text,
             escapes.strip(),
+            escapes_lineno=line + text.count("\n") + stripped.count("\n"),
             lineno=line,
             pos=pos,
         )
